@@ -83,6 +83,12 @@ CLAIMED = {
   "note": "Trusted: Lean kernel + Mathlib; database properties come from the registry dump; whole-substance reply rendering (to_reply / get_in_unit) and substance addition are not modelled; the formula tokenizer's string level is modelled and compared, the theorem is at token level.",
   "design_ref": "DESIGN.md §7 C16",
  },
+ "C17": {
+  "technique": "Lean 4 proof for every registry and dimensionality (units-for display = permutation of the selected entries; factorize soundness by induction on the score; strict ordering of kept candidates) + reply-exact correspondence and an independent membership/product oracle",
+  "text": "unitsfor_exact: what `units for X` displays, flattened with each group's category, is a permutation of the entries selected by the filter (unitsFor_selects: exactly the non-alias units of dimensionality X with their own category) — stable sort and adjacent grouping lose and add nothing; factorize_sound: for every quantity table with sorted dimensionalities, every X and any fuel, each returned name list has one table entry per name whose exponents add up to X's for every base unit (whatever candidates pruning keeps); keepTen_nodup: the kept candidates are strictly ordered, hence without duplicates, and at most ten; name_or_expr: a quantity name and any expression of its dimensionality give the same operand. The replies of `units for` and `factorize` are compared literally with the Lean model for every named quantity (by name and by expression), every dimensionality of the database and random base-unit products, and re-judged by an oracle that recomputes the member set from the registry and multiplies every factorization out.",
+  "note": "Trusted: Lean kernel + Mathlib (list permutations, lexicographic order on List String); factorize is exponential in the implementation and is asked only for dimensionalities of low complexity; after the fix Factors' PartialOrd agrees with Ord, which is what makes the sorted-list model of the BinaryHeap exact.",
+  "design_ref": "DESIGN.md §7 C17",
+ },
 }
 
 NOT_YET = {
